@@ -167,10 +167,22 @@ def find_step_variant(src):
                      r'warnx\("%s: step script not found", step_name\); return (\d+); \}', e):
         raise ValueError('step-exec.c step_exec: handling of an unresolved step changed')
     nf = int(re.search(r'step script not found", step_name\); return (\d+);', e).group(1))
+    # two known continuations: step_fork at once (as shipped: a command of which nothing is left after interpolation
+    # reaches execvp(NULL, ...) in the child), or the check of /repo 8e76449 in between
+    m_plain = re.search(r'step script not found", step_name\); return \d+; \} error = step_fork\(&c, command, &pid\);', e)
+    m_chk = re.search(r'step script not found", step_name\); return \d+; \} if \(command\[0\] == NULL\) \{ '
+                      r'warnx\("%s: empty step command", step_name\); return (\d+); \} error = step_fork\(&c, command, &pid\);', e)
+    if m_chk:
+        empty = (True, int(m_chk.group(1)))
+    elif m_plain:
+        empty = (False, 0)
+    else:
+        raise ValueError('step-exec.c step_exec: what happens between resolve_step_command and step_fork is neither the shipped '
+                         'code nor the empty-command check of /repo 8e76449')
     if not re.search(r'error = exitstatus\(status, gotsig\); if \(error\) warnx\("process group exited %d", error\); '
                      r'return error;$', e):
         raise ValueError('step-exec.c step_exec: the wait status is no longer returned through exitstatus(status, gotsig)')
-    return checked, nf
+    return checked, nf, empty
 
 
 # ---- conf.c: template, dropping of empty arguments, sentinel ---------------------------------
@@ -206,41 +218,71 @@ def script_template(conf):
     return elems, [a for _, a in calls]
 
 
+# the whole normalised body is pinned; what may vary is what the model has a switch for (the two optional statements)
+GET_STEPS_BODY = (
+    'VECTOR(struct config_step) steps; size_t i; int error = 0; '
+    'cf->interpolate.trace = (flags & CONFIG_STEPS_TRACE_COMMAND) ? 1 : 0; steps = cf->callbacks->get_steps(cf, s); '
+    'for (i = 0; i < VECTOR_LENGTH(steps); i++) { struct variable_value *val = &steps[i].command.val; '
+    'struct variable_value newval; size_t j; variable_value_init(&newval, LIST); '
+    'for (j = 0; j < VECTOR_LENGTH(val->list); j++) { const char *arg; arg = config_interpolate_str(cf, val->list[j]); '
+    'if (arg == NULL) { error = 1; goto out; } @DROP@variable_value_append(&newval, arg); } @SENTINEL@'
+    'variable_value_clear(&steps[i].command.val); steps[i].command.val = newval; } '
+    'out: cf->interpolate.trace = 0; if (error) return NULL; return steps;')
+DROP_STMT = "if (arg[0] == '\\0') continue; "
+SENTINEL_STMT = 'variable_value_append(&newval, NULL); '
+HOOK_BODY = (
+    'VECTOR(char *) args; VECTOR(char *) hook; size_t i, nargs; int error = 0; '
+    'hook = config_value(config, "hook", list, NULL); if (hook == NULL) return 0; '
+    'nargs = VECTOR_LENGTH(hook); if (nargs == 0) return 0; if (VECTOR_INIT(args)) err(1, NULL); '
+    'if (VECTOR_RESERVE(args, nargs + 1)) err(1, NULL); args[nargs] = NULL; '
+    'for (i = 0; i < VECTOR_LENGTH(hook); i++) { char **dst; const char *str = hook[i]; const char *arg; '
+    'arg = interpolate_str(str, &(struct interpolate_arg){ .lookup = config_interpolate_lookup, .arg = config, '
+    '.eternal = eternal, .scratch = scratch, }); if (arg == NULL) { error = 1; break; } @DROP@'
+    'dst = VECTOR_ALLOC(args); if (dst == NULL) err(1, NULL); *dst = (char *)arg; } '
+    'if (error) { VECTOR_FREE(args); return -1; } *out = args; return 1;')
+TRACE_BODY = ('struct variable_value val; variable_value_init(&val, STRING); '
+              'val.str = cf->interpolate.trace ? @ON@ : @OFF@; return config_append(cf, name, &val);')
+
+
+def match_variants(body, template, holes):
+    """the body must be the template with every @HOLE@ replaced by one of its alternatives; returns the choice made
+    for each hole (index), raises otherwise"""
+    import itertools
+    names = list(holes)
+    for choice in itertools.product(*[range(len(holes[n])) for n in names]):
+        t = template
+        for n, c in zip(names, choice):
+            t = t.replace('@%s@' % n, holes[n][c])
+        if t == body:
+            return dict(zip(names, choice))
+    return None
+
+
 def get_steps_facts(conf):
     _, body = function(conf, 'config_get_steps', 'conf.c')
     b = norm(body)
-    need = ['steps = cf->callbacks->get_steps(cf, s);',
-            'arg = config_interpolate_str(cf, val->list[j]);',
-            'if (arg == NULL) { error = 1; goto out; }',
-            'variable_value_append(&newval, arg);',
-            'if (error) return NULL; return steps;']
-    for n in need:
-        if n not in b:
-            raise ValueError('conf.c config_get_steps: expected statement %r not found' % n)
-    if not re.search(r'cf->interpolate\.trace = \(flags & CONFIG_STEPS_TRACE_COMMAND\) \? 1 : 0;', b):
-        raise ValueError('conf.c config_get_steps: trace flag handling changed')
-    drop = bool(re.search(r"if \(arg\[0\] == '\\0'\) continue;", b))
-    if not drop and 'arg[0]' in b:
-        raise ValueError('conf.c config_get_steps: test on arg[0] is not the known one')
-    sentinel = 'variable_value_append(&newval, NULL);' in b
+    m = match_variants(b, GET_STEPS_BODY, {'DROP': ['', DROP_STMT], 'SENTINEL': ['', SENTINEL_STMT]})
+    if m is None:
+        raise ValueError('conf.c config_get_steps: the body is not the known one (with or without the test that drops empty '
+                         'arguments, with or without the NULL sentinel): %r' % b)
+    drop, sentinel = bool(m['DROP']), bool(m['SENTINEL'])
     _, tbody = function(conf, 'config_default_trace', 'conf.c')
-    m = re.search(r'val\.str = cf->interpolate\.trace \? ("(?:[^"\\]|\\.)*") : ("(?:[^"\\]|\\.)*");', norm(tbody))
-    if not m:
-        raise ValueError('conf.c config_default_trace: value of ${trace} changed')
-    return drop, sentinel, c_string(m.group(1)), c_string(m.group(2))
+    t = norm(tbody)
+    lit = r'("(?:[^"\\]|\\.)*")'
+    mm = re.fullmatch(re.escape(TRACE_BODY).replace('@ON@', lit).replace('@OFF@', lit), t)
+    if not mm:
+        raise ValueError('conf.c config_default_trace: body changed: %r' % t)
+    return drop, sentinel, c_string(mm.group(1)), c_string(mm.group(2))
 
 
 def hook_facts(hook):
     _, body = function(hook, 'hook_to_argv', 'robsd-hook.c')
     b = norm(body)
-    need = ['hook = config_value(config, "hook", list, NULL);', 'if (hook == NULL) return 0;',
-            'nargs = VECTOR_LENGTH(hook); if (nargs == 0) return 0;',
-            'arg = interpolate_str(str, &(struct interpolate_arg){', 'if (arg == NULL) { error = 1; break; }',
-            '*dst = (char *)arg;']
-    for n in need:
-        if n not in b:
-            raise ValueError('robsd-hook.c hook_to_argv: expected statement %r not found' % n)
-    return bool(re.search(r"arg\[0\]\s*==\s*'\\0'", b))
+    m = match_variants(b, HOOK_BODY, {'DROP': ['', "if (arg[0] == '\\0') continue; "]})
+    if m is None:
+        raise ValueError('robsd-hook.c hook_to_argv: the body is not the known one (with or without a test dropping empty '
+                         'arguments): %r' % b)
+    return bool(m['DROP'])
 
 
 # ---- step tables -------------------------------------------------------------------------------
@@ -301,7 +343,7 @@ def facts(repo):
     if not m:
         raise ValueError('step-exec.h: EX_TIMEOUT not found')
     f = {'ex_timeout': int(m.group(1))}
-    f['checked'], f['notfound_exit'] = find_step_variant(se)
+    f['checked'], f['notfound_exit'], f['empty'] = find_step_variant(se)
     f['template'], f['template_src'] = script_template(conf)
     f['drop'], f['sentinel'], f['trace_on'], f['trace_off'] = get_steps_facts(conf)
     f['hook_drop'] = hook_facts(rd('robsd-hook.c'))
@@ -354,6 +396,10 @@ def generate(repo):
                                                    'as shipped, the schedule is used unchecked'))
     out.append('Definition find_step_null_checked : bool := %s.' % ('true' if f['checked'] else 'false'))
     out.append('Definition notfound_exit : Z := %d%%Z.' % f['notfound_exit'])
+    out.append('(* step-exec.c step_exec: a command of which nothing is left after interpolation is %s *)'
+               % ('refused with "empty step command" (/repo 8e76449)' if f['empty'][0] else 'handed to step_fork as it is (as shipped)'))
+    out.append('Definition empty_command_checked : bool := %s.' % ('true' if f['empty'][0] else 'false'))
+    out.append('Definition empty_exit : Z := %d%%Z.' % f['empty'][1])
     out.append('')
     out.append('(* conf.c config_steps_add_script: %s *)' % ' '.join(f['template_src']))
     out.append('Definition script_template : list tmpl :=\n  [' + ';\n   '.join(f['template']) + '].')
